@@ -319,22 +319,3 @@ theorem exact_centroid_majority (data : Nat → Row) (c : Clu) (h : Exact data c
 
 end BB
 
-#print axioms BB.minSafe_eq_iff
-#print axioms BB.minSafe_bits_lt
-#print axioms BB.minSafe_narrowest
-#print axioms BB.wrap_of_le
-#print axioms BB.exact_sum_le
-#print axioms BB.exact_ofRow
-#print axioms BB.exact_empty
-#print axioms BB.mergedSummary_exact
-#print axioms BB.merge_unbounded
-#print axioms BB.exact_merge
-#print axioms BB.update_unbounded
-#print axioms BB.exact_update
-#print axioms BB.update_eq_merge
-#print axioms BB.exact_trackOf
-#print axioms BB.asUnit_eq
-#print axioms BB.exact_asUnit
-#print axioms BB.exact_explode
-#print axioms BB.explode_isSome
-#print axioms BB.exact_centroid_majority
